@@ -414,7 +414,7 @@ def random_specs(tier, seed):
     """(b) long random conversations, fault rate 0..30 %"""
     rnd = random.Random(seed * 7919 + 17)
     quick = tier == "quick"
-    n = 48 if quick else 1500
+    n = 48 if quick else 1000
     out = []
     for j in range(n):
         cfg = dict(rnd.choice(CONFIGS))
@@ -577,8 +577,9 @@ def run(tier, seed):
                      "TLC found a violation in the design-level model (variants ack, atn, miu on): %s"
                      % str(r.error_trace)[:2000])
     ck.cover(states=r.distinct, transitions=r.generated, mc_depth=r.depth)
-    if quick:       # re-activation of the same objects (thorough: part of the main configuration, MaxSess = 2)
-        rs = tlc.run("MC_NfcDep.tla", "MC_NfcDep_sess.cfg", PID + "_sess", workers=8, timeout=300)
+    if True:        # re-activation of the same objects (MaxSess = 2) on its own, smaller fault bound
+        rs = tlc.run("MC_NfcDep.tla", "MC_NfcDep_sess.cfg" if quick else "MC_NfcDep_sess_thorough.cfg", PID + "_sess",
+                     workers=8 if quick else 16, timeout=300 if quick else 1500)
         if not rs.ok:
             ck.violation("spec:NfcDep(sessions):" + ",".join(rs.violated or ["deadlock"]),
                          "TLC found a violation in the re-activation model: %s" % str(rs.error_trace)[:2000])
